@@ -59,6 +59,11 @@ def driver_case(c, variant=0, via="argv"):
     d = dict(cfg=c["cfg"], env=_denv(cenvs[0] if cenvs else c["env"], variant), calls=[x["argv"] for x in c["calls"]], via=via)
     if any(e != cenvs[0] for e in cenvs):
         d["envs"] = [_denv(e, variant + k) for k, e in enumerate(cenvs)]
+    # AddLetter: short names attached between the calls (the side table has the declaration as first declared)
+    base = [x["letter"] for x in c["cfg"]["decl"]]
+    lets = [x.get("letters", base) for x in c["calls"]]
+    if any(l != base for l in lets):
+        d["letters"] = lets
     return d
 
 
@@ -68,11 +73,11 @@ def inputs_view(c):
     calls = []
     for x, cls in zip(c["calls"], c["inputs"]):
         if cls == "ok":
-            calls.append(dict(argv=x["argv"], res=x["res"], why="", env=x.get("env", c["env"])))
+            calls.append(dict(argv=x["argv"], res=x["res"], why="", env=x.get("env", c["env"]), **({"letters": x["letters"]} if "letters" in x else {})))
         elif cls == "parser_error":
-            calls.append(dict(argv=x["argv"], res=dict(oc="parser_error", st=[], pos=[]), why="Inconsistent", env=x.get("env", c["env"])))
+            calls.append(dict(argv=x["argv"], res=dict(oc="parser_error", st=[], pos=[]), why="Inconsistent", env=x.get("env", c["env"]), **({"letters": x["letters"]} if "letters" in x else {})))
         else:
-            calls.append(dict(argv=x["argv"], res=dict(oc="error", st=[], pos=[]), why=x["why"] or "Malformed", env=x.get("env", c["env"])))
+            calls.append(dict(argv=x["argv"], res=dict(oc="error", st=[], pos=[]), why=x["why"] or "Malformed", env=x.get("env", c["env"]), **({"letters": x["letters"]} if "letters" in x else {})))
     ok_calls = [k for k, (x, cls) in enumerate(zip(c["calls"], c["inputs"])) if cls == "ok" and x["res"]["oc"] != "ok"]
     if ok_calls:
         return None      # cannot happen: whatever the vector entry accepts the argv entry accepts too
@@ -125,6 +130,9 @@ def compare_case(chk, c, o, dcase):
             hist += " env of this call %s" % [e if e == "unset" else _s(e) for e in dcase["envs"][k]]
         if dcase.get("moved"):
             wit["moved"] = True
+        if "letters" in dcase:
+            wit["letters"] = dcase["letters"][:k + 1]
+            hist += " short names at this call %s" % ["".join(chr(x) if x else "-" for x in dcase["letters"][k])]
         where0 = ("Scan/" + x["why"]) if x["res"]["oc"] == "error" else "Result"
         if dcase.get("via") == "inputs":
             where0 = "ViaInputs/" + where0
@@ -552,7 +560,7 @@ PLAN = {
     # pid: (models quick, models thorough, random profile, parsers quick, parsers thorough, calls per parser)
     # every option check also replays the history model MC_Opt_C14: what a property says about "parsing" holds for every
     # call on a parser object, not only the first one
-    "C01": (["MC_Opt_C01_quick", "MC_Opt_C14_quick"], ["MC_Opt_C01_thorough", "MC_Opt_C14_quick"], dict(env=0.0, long=0.0), 3000, 40000, (1, 3)),
+    "C01": (["MC_Opt_C01_quick", "MC_Opt_C14_quick", "MC_Opt_C14decl_quick"], ["MC_Opt_C01_thorough", "MC_Opt_C14_quick", "MC_Opt_C14decl_thorough"], dict(env=0.0, long=0.0), 3000, 40000, (1, 3)),
     "C02": (["MC_Opt_C02_quick", "MC_Opt_C14_quick"], ["MC_Opt_C02_thorough", "MC_Opt_C14_quick"], dict(env=0.0, render=True), 3000, 40000, (1, 2)),
     "C03": (["MC_Opt_C03", "MC_Opt_C14_quick", "MC_Opt_C14env_quick"], ["MC_Opt_C03", "MC_Opt_C14_thorough", "MC_Opt_C14env_thorough"], dict(env=0.9), 3000, 40000, (1, 3)),
     # C04 also replays the re-parse histories: "the error is raised exactly when ..." must hold for every call, not only the first
@@ -560,7 +568,7 @@ PLAN = {
             dict(env=0.3, long=0.03, batch=400), 3000, 30000, (1, 3)),
     "C11": (["MC_Opt_C11a_quick", "MC_Opt_C11b", "MC_Opt_C14_quick"], ["MC_Opt_C11a_thorough", "MC_Opt_C11b", "MC_Opt_C14_quick"], dict(env=0.6, toggles=True), 3000, 40000, (1, 3)),
     "C12": (["MC_Opt_C12_quick", "MC_Opt_C14_quick"], ["MC_Opt_C12_thorough", "MC_Opt_C14_quick"], dict(env=0.0, positional=True), 3000, 40000, (1, 3)),
-    "C14": (["MC_Opt_C14_quick", "MC_Opt_C14env_quick"], ["MC_Opt_C14_thorough", "MC_Opt_C14env_thorough"], dict(env=0.3), 1500, 15000, (2, 6)),
+    "C14": (["MC_Opt_C14_quick", "MC_Opt_C14env_quick", "MC_Opt_C14decl_quick"], ["MC_Opt_C14_thorough", "MC_Opt_C14env_thorough", "MC_Opt_C14decl_thorough"], dict(env=0.3), 1500, 15000, (2, 6)),
 }
 
 ASSUME = ["the declaration given to the driver is the one the model describes (built through the public declaration API)",
